@@ -174,6 +174,15 @@ def cases(ctx):
         ("literal.multi_key.in_kwargs", "Value.items_contain(cfg={'name': 'x', 'xpath': [a]})", [("a", U)]),
         ("literal.nested_two_levels", "Value.equal_to({'name': 'copy', 'src': {'path': [a, 0]}})", [("a", U)]),
         ("path.in_map_value", "Value.equal_to({'k': DataPath('ref'), 'j': a})", [("a", "int")]),
+        # data paths as values of a mapping argument whose keys themselves look like path specs
+        ("path.in_kwargs.kwname_path", "Value.items_contain(path=DataPath('lim', s))", [("s", "str")]),
+        ("path.in_map_value.key_path", "Value.equal_to({'path': DataPath('ref'), 'j': a})", [("a", "int")]),
+        ("path.in_map_value.key_suffix", "Value.equal_to({'Path.length': DataPath('a').length(), 'j': a})", [("a", "int")]),
+        ("path.in_map_value.key_escaped", "Value.equal_to({'\\\\path': DataPath('ref'), 'j': a})", [("a", "int")]),
+        # 'path' more than once in one key
+        ("literal.path_twice", "Value.equal_to({'path/subpath': a})", [("a", U)]),
+        ("literal.path_twice.caps", "Value.in_([{'PATH to Path': a}, 1])", [("a", U)]),
+        ("literal.path_twice.suffix", "Value.items_contain(k={'path.map_keys.path': [a]})", [("a", U)]),
     ]
     for cid, expr, extra, *more in path_args:
         params = extra + [("u1", U)]
